@@ -150,6 +150,8 @@ pub struct Split {
     input: KString,
     pattern: KString,
     start: usize,
+    // True once the first part has been produced, see the note on empty patterns in `next`
+    started: bool,
 }
 
 impl Split {
@@ -159,6 +161,7 @@ impl Split {
             input,
             pattern,
             start: 0,
+            started: false,
         }
     }
 }
@@ -175,13 +178,38 @@ impl Iterator for Split {
     fn next(&mut self) -> Option<Self::Item> {
         let start = self.start;
         if start <= self.input.len() {
-            let end = match self.input[start..].find(self.pattern.as_str()) {
-                Some(end) => start + end,
-                None => self.input.len(),
+            let found = if self.pattern.is_empty() {
+                // An empty pattern matches at every char boundary (as in `str::split`),
+                // after the first match the search has to move on to the next boundary,
+                // otherwise the iterator would yield empty strings without end.
+                if self.started {
+                    self.input[start..]
+                        .chars()
+                        .next()
+                        .map(|c| start + c.len_utf8())
+                } else {
+                    Some(start)
+                }
+            } else {
+                self.input[start..]
+                    .find(self.pattern.as_str())
+                    .map(|end| start + end)
+            };
+            self.started = true;
+
+            let end = match found {
+                Some(end) => {
+                    self.start = end + self.pattern.len();
+                    end
+                }
+                None => {
+                    // The last part has been reached
+                    self.start = self.input.len() + 1;
+                    self.input.len()
+                }
             };
 
             let output = KValue::Str(self.input.with_bounds(start..end).unwrap());
-            self.start = end + self.pattern.len();
             Some(Output::Value(output))
         } else {
             None
